@@ -98,6 +98,14 @@ type c5range struct {
 	wrapN  bool // multi-entry map: chunks wrapped for multiset comparison
 }
 type c5let struct{ name, val string }
+
+// c5mixed: one inner one-variable range node executed over values that differ in
+// ProvidesIndex() (an outer range over a list of rangeables)
+type c5mixed struct {
+	name  string
+	a     string
+	elems []*subject
+}
 type c5try struct{ body []c5node }
 type c5fail struct{ id int }
 
@@ -112,6 +120,7 @@ type c5gen struct {
 	budget  int
 	vis     []string // variable names visible at the point being generated
 	nLet    int
+	mixed   []*c5mixed
 }
 
 var condTable = []c5cond{
@@ -237,7 +246,7 @@ func (g *c5gen) stmt(depth int) c5node {
 		}
 		return 0
 	}
-	switch g.t.Weighted(2, 1, w(!deep, 3), w(!deep, 4), w(g.useTry && !deep, 1), w(g.useTry, 1), w(len(g.vis) > 0, 2), 1) {
+	switch g.t.Weighted(2, 1, w(!deep, 3), w(!deep, 4), w(g.useTry && !deep, 1), w(g.useTry, 1), w(len(g.vis) > 0, 2), 1, w(!deep, 1)) {
 	case 0:
 		return c5text{g.mark()}
 	case 1:
@@ -325,6 +334,25 @@ func (g *c5gen) stmt(depth int) c5node {
 		}
 		g.vis = append(g.vis, name)
 		return c5let{name, fmt.Sprintf("L%d", g.nLet)}
+	case 8:
+		id := len(g.mixed)
+		m := &c5mixed{name: fmt.Sprintf("mix%d", id)}
+		g.nVar++
+		m.a = fmt.Sprintf("a%d", g.nVar)
+		n := g.t.Range(2, 4)
+		for i := 0; i < n; i++ {
+			sub := &subject{kind: "ranger-idx", index: true}
+			if g.t.Choose(2) == 1 {
+				sub = &subject{kind: "ranger-plain", index: false}
+			}
+			k := g.t.Range(0, 3)
+			for j := 0; j < k; j++ {
+				sub.elems = append(sub.elems, elem{fmt.Sprint(j), fmt.Sprintf("x%d_%d_%d", id, i, j)})
+			}
+			m.elems = append(m.elems, sub)
+		}
+		g.mixed = append(g.mixed, m)
+		return m
 	}
 	return c5text{g.mark()}
 }
@@ -342,6 +370,8 @@ func c5src(b *strings.Builder, ns []c5node) {
 			b.WriteString("<" + n.name + "={{" + n.name + "}}>")
 		case c5let:
 			fmt.Fprintf(b, "{{%s := %q}}", n.name, n.val)
+		case *c5mixed:
+			fmt.Fprintf(b, "{{range %s}}{{range %s := .}}<{{%s}}>{{end}}|{{end}}", n.name, n.a, n.a)
 		case *c5if:
 			for i, c := range n.conds {
 				if i == 0 {
@@ -458,6 +488,21 @@ func (e *c5eval) run(b *strings.Builder, ns []c5node, ctx string) {
 			b.WriteString("<" + n.name + "=" + e.lookup(n.name) + ">")
 		case c5let:
 			e.frames[len(e.frames)-1][n.name] = n.val
+		case *c5mixed:
+			for _, sub := range n.elems {
+				// custom Rangers are stateful: a second pass over the same list finds them spent
+				for e.left[sub] < len(sub.elems) {
+					el := sub.elems[e.left[sub]]
+					e.left[sub]++
+					e.iters++
+					if sub.index {
+						b.WriteString("<" + el.key + ">")
+					} else {
+						b.WriteString("<" + el.val + ">")
+					}
+				}
+				b.WriteString("|")
+			}
 		case *c5if:
 			e.ifs++
 			done := false
@@ -592,8 +637,26 @@ func canon(s string) string {
 }
 
 // c5vars builds the VarMap: condition values and fresh instances of every subject.
-func c5vars(subs []*subject, p *Probes, chans *[]reflect.Value) jet.VarMap {
+func c5vars(subs []*subject, mixed []*c5mixed, p *Probes, chans *[]reflect.Value) jet.VarMap {
 	vm := jet.VarMap{}
+	for _, m := range mixed {
+		// a []jet.Ranger: elements are index-providing and index-less custom Rangers. (A Ranger inside
+		// a []interface{} is not recognised by jet - the Implements check looks at the static element
+		// type before unwrapping - observed, not judged here.)
+		var list []jet.Ranger
+		for _, sub := range m.elems {
+			var vals []string
+			for _, e := range sub.elems {
+				vals = append(vals, e.val)
+			}
+			if sub.index {
+				list = append(list, &idxRanger{items: vals})
+			} else {
+				list = append(list, &plainRanger{items: vals})
+			}
+		}
+		vm.Set(m.name, list)
+	}
 	vm.Set("cT", true).Set("cF", false).Set("zi", 0).Set("pi", 5).Set("zf", 0.0).Set("pf", 1.5)
 	vm.Set("zs", "").Set("ns", "x").Set("s0", "0")
 	vm.Set("hf", 0.5).Set("nhf", -0.5).Set("tiny", 1e-9).Set("u8z", uint8(0)).Set("u8", uint8(3)).Set("i64z", int64(0)).Set("i64", int64(-7))
@@ -734,7 +797,7 @@ func RunC05(env *sim.Env) {
 				w := &SimWriter{}
 				p := &Probes{W: w, FailAt: pl.failAt, Tag: "x"}
 				var chans []reflect.Value
-				vm := c5vars(g.subs, p, &chans)
+				vm := c5vars(g.subs, g.mixed, p, &chans)
 				var xerr error
 				t0 := time.Now()
 				pc := sim.Guard(func() { xerr = tmpl.Execute(w, vm, "TOP") })
